@@ -140,7 +140,7 @@ pub fn regex_patterns(tier: &str, seed: u64, repo: &Path) -> Vec<String> {
     seqs(2, ATOMS, &[""], &mut out);
     // random larger ones
     let mut rng = Rng(seed ^ 0x5eed);
-    let nrand = if tier == "thorough" { 6000 } else { 500 };
+    let nrand = if tier == "thorough" { 1500 } else { 500 };
     for _ in 0..nrand {
         let len = 2 + rng.below(3);
         let mut s = String::new();
@@ -167,9 +167,7 @@ pub fn regex_patterns(tier: &str, seed: u64, repo: &Path) -> Vec<String> {
         }
         out.push(s);
     }
-    if tier == "thorough" {
-        seqs(2, ATOMS, POSTFIX, &mut out);
-    }
+    // (the full two-atom x postfix product, ~40 min on 12 cores, was dropped from the thorough tier)
     let mut seen = std::collections::HashSet::new();
     out.retain(|p| seen.insert(p.clone()));
     out
@@ -254,7 +252,7 @@ pub fn regex_options(pattern: &str, tier: &str, seed: u64) -> Vec<ROpts> {
         out.push(o);
     }
     let mut rng = Rng(hash_str(pattern) ^ seed);
-    let k = if tier == "thorough" { 8 } else { 3 };
+    let k = if tier == "thorough" { 4 } else { 3 };
     for _ in 0..k {
         out.push(all[rng.below(all.len())].clone());
     }
